@@ -13,6 +13,24 @@ CLAIMED = {
         "Trusts CPython ast/re, the transcription of Tables 1-3 in spec/pdf_lexical.json and the reference automaton confirmed by reading. Known finding C01-R4 (odd hex digit) is pinned by the existing test-suite and therefore recorded, not repaired.",
         "DESIGN.md §5 C01",
     ),
+    "C02": (
+        "CFG dominance / must-pass checks on read_xref_from and getobj, sibling-agreement dependence check on the two cross-reference-stream readers, raise-class check on the classic loader's failure exits, binding checks",
+        "Decides structural necessary conditions of xref resolution: newest-first collection (append dominates the descent into XRefStm then Prev), first hit wins in getobj and in the trailer loop, both readers of a cross-reference stream index entries with a counter carried across /Index ranges, every failure exit of the classic loader raises PDFNoValidXRef and its handler engages the body scan (fallback flag set before loading; stream data extended only in fallback mode), object-stream member index and entry-field slicing. Equality of answers across physical forms, EOL styles and buffer sizes is value/history level and not decided.",
+        "Trusts CPython ast and the reading of ISO 32000-1 7.5.4-7.5.8 encoded in the rule.",
+        "DESIGN.md §5 C02",
+    ),
+    "C03": (
+        "table folding of filter-name literals vs ISO 32000-1 Tables 6/94, dispatch-chain extraction, parameter binding against callee signatures, ceiling-division normal forms for row-buffer units, polynomial/comparison normal form of the Paeth function, CFG dominance on the payload read",
+        "Decides structural necessary conditions of stream decoding: names/abbreviations and the decoder each reaches, pairing and order of filters and parameters with the predictor after its filter, predictor dispatch/defaults/bindings, byte units of the PNG row buffers, the Paeth function and per-type operands, payload delimited by /Length after the stream line. Round-trip equality of the LZW/RunLength/ASCII85/Flate decoders is value level and not decided.",
+        "Trusts spec/pdf_filters.json (transcribed from ISO 32000-1 and PNG 1.2).",
+        "DESIGN.md §5 C03",
+    ),
+    "C04": (
+        "table folding (inheritable attributes), CFG dominance of the visited-set guard, must-pass-through of the page-limit test with a polynomially normalised threshold, polynomial identities for the page CTM of each Rotate branch, dispatch checks of box defaults",
+        "Decides structural necessary conditions of page-tree handling: exactly the Table 30 attributes are inherited from the nearest ancestor, Kids in list order with the merged dictionary passed down, visited guard dominating every yield/descent (termination on cycles), the maxpages test on every path of the selection loop with the right threshold, Rotate mod 360, page CTM = clockwise rotation mapping the MediaBox onto an origin box (exact polynomial identities), box defaults. Page order for malformed trees and label pairing are not decided.",
+        "Trusts CPython ast and the polynomial normaliser.",
+        "DESIGN.md §5 C04",
+    ),
     "C05": (
         "arity/dispatch table check vs ISO 32000-1 Annex A, must-call ordering on handler CFGs, polynomial normal forms of the positioning kernels and pen-advance bindings, copy-completeness of state objects, pairing/restore checks on the form-XObject branch",
         "Decides the structural necessary conditions of the text model: each text/graphics-state operator exists with the spec'd operand count and is only invoked with all operands; ', \", TD, Tj decompose as 9.4.2-9.4.3 prescribe; Td/TD/T*/Tm/BT/cm compute the spec formulas (polynomial identities); q/Q and TJ snapshots copy every state field; nested form execution uses a fresh interpreter, own/copied resources, balanced figure bracket and re-issues the caller's CTM; scale factors and parameter bindings of the pen advance are the spec's. Numeric glyph positions for arbitrary programs and font metrics are not decided.",
